@@ -185,7 +185,7 @@ type vTxOp struct {
 	bad  bool // op 8: the title handed in is empty (rejected by SetRequiredString)
 }
 
-func verifC07Body(nOps int, batch bool, faults bool, label string) {
+func verifC07Body(nOps int, batch bool, faults bool, nestMode int, label string) {
 	nSlots := 2
 	env := verifNewEnv(vStoreCfg{nickNullable: true})
 	defer env.close()
@@ -312,20 +312,44 @@ func verifC07Body(nOps int, batch bool, faults bool, label string) {
 	// the real transaction
 	opErr := make([]error, nOps)
 	ran := 0
+	txCtx := NewMutateContext(context.Background())
+	var runOps func(ctx MutateContext) error
+	// the first pre-commit action is registered inside the body or on the
+	// context before the transaction starts; the operations run directly in the
+	// body or inside a nested Db.Update / Db.Batch on the same context
+	regBefore := faults && verifrt.Bool("precommit0.registered.before")
+	nested := nestMode == 2 || (nestMode == 1 && verifrt.Bool("nested"))
+	preCommit0 := func(MutateContext) error {
+		if preCommitFails[0] {
+			return errors.New("verif: pre-commit action 0 fails")
+		}
+		return nil
+	}
+	if regBefore {
+		txCtx.AddPreCommitAction(preCommit0)
+	}
 	body := func(ctx MutateContext) error {
 		ctx.AddCommitAction(func() { log.commits++ })
-		ctx.AddPreCommitAction(func(MutateContext) error {
-			if preCommitFails[0] {
-				return errors.New("verif: pre-commit action 0 fails")
-			}
-			return nil
-		})
+		if !regBefore {
+			ctx.AddPreCommitAction(preCommit0)
+		}
 		ctx.AddPreCommitAction(func(MutateContext) error {
 			if preCommitFails[1] {
 				return errors.New("verif: pre-commit action 1 fails")
 			}
 			return nil
 		})
+		return runOps(ctx)
+	}
+	runOps = func(ctx MutateContext) error {
+		if nested {
+			nested = false
+			defer func() { nested = true }()
+			if batch {
+				return env.db.Batch(ctx, runOps)
+			}
+			return env.db.Update(ctx, runOps)
+		}
 		for k, op := range ops {
 			ran = k + 1
 			id := vIds[op.slot]
@@ -366,9 +390,9 @@ func verifC07Body(nOps int, batch bool, faults bool, label string) {
 	}
 	var err error
 	if batch {
-		err = env.db.Batch(NewMutateContext(context.Background()), body)
+		err = env.db.Batch(txCtx, body)
 	} else {
-		err = env.db.Update(NewMutateContext(context.Background()), body)
+		err = env.db.Update(txCtx, body)
 	}
 	verifrt.Settle()
 	verifrt.Logf("tx err=%v txFails=%v ran=%v", err, txFails, ran)
@@ -670,10 +694,10 @@ func VerifC07_UpdateTransaction() {
 	if verifrt.Tier() == 1 {
 		n = 2
 	}
-	verifC07Body(n, false, true, "C07")
+	verifC07Body(n, false, true, 1, "C07")
 }
 
-func VerifC07_BatchTransaction() { verifC07Body(1, true, true, "C07 batch") }
+func VerifC07_BatchTransaction() { verifC07Body(1, true, true, 1, "C07 batch") }
 
 // VerifC08_ContextReuse: the same MutateContext carries two transactions in a
 // row (Db.Update detaches the tx from the context when it ends, so a context
@@ -803,5 +827,14 @@ func VerifC08_Events() {
 	if verifrt.Tier() == 1 {
 		n = 3
 	}
-	verifC07Body(n, false, false, "C08")
+	verifC07Body(n, false, false, 0, "C08")
 }
+
+// the operations run inside a nested Db.Update on the transaction's context:
+// still one transaction - events, commit actions and tx-complete listeners once
+func VerifC08_NestedUpdate() { verifC07Body(1, false, false, 2, "C08 nested") }
+
+// a rejection recorded before the entity is persisted (the system-entity veto
+// on a child-store entity, see VerifC16_ChildStoreSystemEntities) must still be
+// the operation's result after the child and parent parts have been written
+func VerifC07_RejectionRecordedBeforePersist() { VerifC16_ChildStoreSystemEntities() }
